@@ -469,7 +469,7 @@ func progHas(p *Prog, f func(Stmt) bool) bool {
 func C05() int {
 	r := findings.New("C05")
 	defer drive.Cleanup()
-	deadline := r.Deadline(8*time.Minute, 40*time.Minute)
+	deadline := r.Deadline(10*time.Minute, 40*time.Minute)
 	// 1. calibration: the model must reproduce the repository's Windows expectations
 	fails, summary, err := c05Calibrate(r)
 	r.Set("calibration", summary)
